@@ -391,8 +391,10 @@ func (g *c20Gen) tarEnt(op string) c20TarEnt {
 func (g *c20Gen) tarEnts(op string, min, max int) []c20TarEnt {
 	n := rapid.IntRange(min, max).Draw(g.t, "nents")
 	out := make([]c20TarEnt, 0, n+1)
-	// a benign control member first: shows the archive is being processed
-	out = append(out, c20TarEnt{Name: "ctl", Type: "reg", Size: 9, Mode: 0o644})
+	// benign control members first: they show the archive is being processed and
+	// provide the parent directories that the benign / "mid-dots" names walk through
+	out = append(out, c20TarEnt{Name: "ctl", Type: "reg", Size: 9, Mode: 0o644},
+		c20TarEnt{Name: "a/b/", Type: "dir", Mode: 0o755}, c20TarEnt{Name: "d/", Type: "dir", Mode: 0o755})
 	for i := 0; i < n; i++ {
 		e := g.tarEnt(op)
 		// follow-ups through a just-created name: "<linkname>/x" after a link entry
@@ -507,13 +509,13 @@ func (g *c20Gen) layout(op string, hostileOneIn int) c20Layout {
 
 var c20LayoutOps = []string{"blob.get", "blob.get", "blob.head", "blob.delete", "blob.delete", "blob.put", "blob.getconfig",
 	"manifest.get", "manifest.get", "manifest.head", "manifest.put", "manifest.delete", "manifest.delete", "manifest.delete",
-	"tag.delete", "tag.list", "referrer.list", "image.config", "image.export", "image.copy", "close"}
+	"tag.delete", "tag.list", "referrer.list", "image.config", "image.export", "image.copy", "close", "blob.mount"}
 
 func (g *c20Gen) op(nmans, nblobs int) c20Op {
 	o := c20Op{Op: rapid.SampledFrom(c20LayoutOps).Draw(g.t, "op"), Via: g.from("via", "rc", "oci")}
 	o.Ref = g.refSpec(o.Op+":ref", nmans, nblobs)
 	switch o.Op {
-	case "blob.get", "blob.head", "blob.delete", "blob.getconfig":
+	case "blob.get", "blob.head", "blob.delete", "blob.getconfig", "blob.mount":
 		o.Desc = g.desc(o.Op+":desc", nmans, nblobs, 1)
 		if o.Desc.Size != 0 && g.chance("zerosize", 2) {
 			o.Desc.Size = 0
@@ -568,7 +570,14 @@ func (g *c20Gen) copy() *c20Copy {
 	if g.chance("srchostile", 3) {
 		c.SrcRef = g.refSpec(op+":srcref", nm, nb)
 	} else {
-		c.SrcRef = c20RefSpec{How: "settag", Tag: g.from("srctag", "v1", "v2", "t", "latest", "evil")}
+		// mostly a tag that exists in the source
+		tags := []string{"evil"}
+		for _, e := range c.Spec.Index {
+			if strings.HasPrefix(e.Dig, "#") && e.Tag != "" {
+				tags = append([]string{e.Tag}, tags...)
+			}
+		}
+		c.SrcRef = c20RefSpec{How: "settag", Tag: rapid.SampledFrom(tags).Draw(g.t, "srctag")}
 	}
 	if g.chance("dsthostile", 2) {
 		c.DstRef = g.refSpec(op+":dstref", nm, nb)
@@ -600,7 +609,7 @@ func (g *c20Gen) imp() *c20Import {
 		im.OmitIndex = g.chance("omitindex", 3)
 	}
 	if g.chance("extra", 2) {
-		im.Extra = g.tarEnts("import:extra", 1, 4)[1:]
+		im.Extra = g.tarEnts("import:extra", 1, 4)[3:]
 		// make some extras shadow / alias the names the importer looks for
 		for i := range im.Extra {
 			if g.chance("alias", 3) {
